@@ -31,7 +31,7 @@ def gen_result(r, fail=None):
         spec["env"] = r.sample(ENV_POOL, r.randint(0, len(ENV_POOL)))
     else:
         spec["env"] = None
-    spec["exec_d"] = [[p, p] for p in r.sample(["p1", "p2", "p3"], r.choice([0, 0, 1, 2, 3]))]
+    spec["exec_d"] = [[p, r.choice([p, p, "p1b" if p == "p1" else p])] for p in r.sample(["p1", "p2", "p3"], r.choice([0, 0, 1, 2, 3]))]      # "p1b": size and mode of p1, other content
     spec["sboms"] = [[f, hx(b'{"s":"%s-%d"}' % (f.encode(), r.randrange(1000)))] for f in r.sample(SBOM_FORMATS, r.choice([0, 0, 1, 2, 3]))]
     spec["write_files"] = [[r.choice(["data.txt", "bin/tool", "lib/x.so", "deep/er/f", "include/h.h"]), hx(b"c-%d" % r.randrange(1000))] for _ in range(r.randint(0, 3))]
     spec["delete_files"] = r.sample(["data.txt", "bin/tool", "deep/er/f"], r.choice([0, 0, 1]))
@@ -301,6 +301,9 @@ def run_history(mon, base, hid, steps, names, sh, snapshots_out=None):
         with open(os.path.join(src, p), "wb") as f:
             f.write(b"#!/bin/sh\necho " + p.encode() + b"\n")
         os.chmod(os.path.join(src, p), {"p1": 0o755, "p2": 0o775, "p3": 0o700}[p])
+    with open(os.path.join(src, "p1b"), "wb") as f:
+        f.write(b"#!/bin/sh\necho pB\n")
+    os.chmod(os.path.join(src, "p1b"), 0o755)
     case = {"steps": jsonable(steps), "names": names, "_layers": layers, "umask": UMASK}
     try:
         mon.call({"op": "init", "layers_dir": layers, "app_dir": os.path.join(root, "app"), "bp_dir": os.path.join(root, "bp")})
@@ -353,6 +356,9 @@ def run_mixed(mon, base, hid, steps, names, sh):
         with open(os.path.join(src, p), "wb") as f:
             f.write(b"#!/bin/sh\necho " + p.encode() + b"\n")
         os.chmod(os.path.join(src, p), {"p1": 0o755, "p2": 0o775, "p3": 0o700}[p])
+    with open(os.path.join(src, "p1b"), "wb") as f:
+        f.write(b"#!/bin/sh\necho pB\n")
+    os.chmod(os.path.join(src, "p1b"), 0o755)
     case = {"mixed": True, "hid": hid, "names": names, "_layers": layers, "umask": UMASK, "seed_note": "mixed histories are regenerated from VERIF_SEED and their index"}
     alive = set()
     try:
